@@ -286,9 +286,23 @@ def do_write(fn):
     return b.getvalue().hex()
 
 
+class GuardedBytes:
+    """bytes with a read budget of their own (see the reader loop of `correspondence`)"""
+
+    def __init__(self, data, budget):
+        self.data, self.budget = data, budget
+
+    def __len__(self):
+        return len(self.data)
+
+
 def do_read(fn, data, conv=lambda x: x, guarded=False):
     """fn(inf) -> {"v": canonical value, "rest": unread bytes} or the error enum; Budget propagates"""
-    inf = GuardedIO(data) if guarded else io.BytesIO(data)
+    if isinstance(data, GuardedBytes):
+        inf = GuardedIO(data.data, data.budget)
+        data = data.data
+    else:
+        inf = GuardedIO(data) if guarded else io.BytesIO(data)
     try:
         v = fn(inf)
         return {"v": conv(v), "rest": len(data) - inf.tell()}
@@ -690,10 +704,16 @@ def correspondence(ctx):
                 if vi >= 2 and rop in NO_DAMAGE:
                     continue
                 try:
-                    ir = do_read(fn, d, conv, guarded=vi >= 2)
+                    # every read is budgeted (a budget large enough for any generated value: ~50 reads per element); on
+                    # an EXACT or suffix-extended stream a reader that runs away (e.g. takes a garbage length for a list
+                    # because it is out of step with the writer) is a disagreement with the model, not a skipped case
+                    ir = do_read(fn, d, conv, guarded=True) if vi >= 2 else \
+                        do_read(fn, GuardedBytes(d, 400000 + 60 * len(d)), conv)
                 except Budget:
-                    ctx.count("skipped_unbounded_read")
-                    continue
+                    if vi >= 2:
+                        ctx.count("skipped_unbounded_read")
+                        continue
+                    ir = {"runaway": "the real reader does not stop on a stream the real writer produced"}
                 ctx.count("stream_kind:" + ("exact", "suffix", "damaged")[min(vi, 2)])
                 cases.append((rop, {"b": d.hex()}, ir))
     # int / bool array readers with explicit widths
